@@ -1,5 +1,8 @@
-(** The quoting tag of a token: cicada's [sep] field is only ever the empty
-    string, a single quote, a double quote, a backquote or a backslash. *)
+(** The five values a token's separator can take (types.rs: Tokens = Vec<(String, String)>,
+    first component): empty, single quote, double quote, backquote, backslash. *)
+From Cicada Require Import Base.Chars.
+Local Open Scope N_scope.
+
 Inductive tag := TNone | TSq | TDq | TBq | TBs.
 
 Definition tag_eqb (a b : tag) : bool :=
@@ -9,7 +12,16 @@ Definition tag_eqb (a b : tag) : bool :=
   end.
 
 Lemma tag_eqb_eq a b : tag_eqb a b = true <-> a = b.
-Proof. destruct a, b; cbn; split; congruence. Qed.
+Proof. destruct a, b; cbn; split; intro H; try reflexivity; try discriminate. Qed.
 
 Lemma tag_eqb_refl a : tag_eqb a a = true.
-Proof. now destruct a. Qed.
+Proof. destruct a; reflexivity. Qed.
+
+Lemma tag_eqb_neq a b : tag_eqb a b = false <-> a <> b.
+Proof. destruct a, b; cbn; split; intro H; try reflexivity; try discriminate; try congruence. Qed.
+
+(** The separator as the string the Rust code holds. *)
+Definition tag_str (t : tag) : str :=
+  match t with TNone => [] | TSq => [39] | TDq => [34] | TBq => [96] | TBs => [92] end.
+
+Definition tag_is_empty (t : tag) : bool := tag_eqb t TNone.
